@@ -143,7 +143,7 @@ def clause_algebra(R):
     from fv.absint import Sq, p_sym, p_add, p_mul, p_const
     from . import symalg
     quick = R.tier != "thorough"
-    lengths = [l for l in LENGTHS if l <= (256 if quick else 1024)]
+    lengths = list(LENGTHS)          # all supported lengths in both tiers (n = 1024 takes about 25 s)
     prod_max = 16 if quick else 64
     S = Session()
     ctx = S.ctx
